@@ -260,8 +260,18 @@ def isIncreaseCall (gid : String) (c : Call) : Bool :=
   | .attach g _ => g == gid
   | _ => false
 
+/-- Calls of the attach phase of a fleet scale-up (after CreateFleet). -/
+def isAttachPhaseCall (gid : String) (c : Call) : Bool :=
+  match c with
+  | .describeStatus _ | .terminateInstances _ => true
+  | .attach g _ => g == gid
+  | _ => false
+
+theorem attachPhase_isIncrease {gid : String} {c : Call} (h : isAttachPhaseCall gid c = true) : isIncreaseCall gid c = true := by
+  cases c <;> simp [isAttachPhaseCall, isIncreaseCall] at h ⊢ <;> exact h
+
 theorem terminateChunks_entries (o : Oracle) (gid : String) :
-    ∀ (cs : List (List String)) (k : Nat), ∀ e ∈ (terminateChunks o k cs).j, isIncreaseCall gid e.call = true := by
+    ∀ (cs : List (List String)) (k : Nat), ∀ e ∈ (terminateChunks o k cs).j, isAttachPhaseCall gid e.call = true := by
   intro cs
   induction cs with
   | nil => intro k e he; simp [terminateChunks] at he
@@ -275,7 +285,7 @@ theorem terminateChunks_entries (o : Oracle) (gid : String) :
     · exact ih _ e he
 
 theorem terminateOrphans_entries (o : Oracle) (gid : String) (k : Nat) (g : PGroup) (ids : List String) :
-    ∀ e ∈ (terminateOrphans o k g ids).j, isIncreaseCall gid e.call = true := by
+    ∀ e ∈ (terminateOrphans o k g ids).j, isAttachPhaseCall gid e.call = true := by
   intro e he
   unfold terminateOrphans at he; dsimp only at he
   split at he
@@ -283,7 +293,7 @@ theorem terminateOrphans_entries (o : Oracle) (gid : String) (k : Nat) (g : PGro
   · exact terminateChunks_entries o gid _ _ e he
 
 theorem readyLoop_entries (o : Oracle) (gid : String) (ids : List String) :
-    ∀ (t k : Nat), ∀ e ∈ (readyLoop o ids t k).j, isIncreaseCall gid e.call = true := by
+    ∀ (t k : Nat), ∀ e ∈ (readyLoop o ids t k).j, isAttachPhaseCall gid e.call = true := by
   intro t
   induction t with
   | zero => intro k e he; simp [readyLoop] at he
@@ -298,7 +308,7 @@ theorem readyLoop_entries (o : Oracle) (gid : String) (ids : List String) :
       · exact ih _ e he
 
 theorem attachBatches_entries (o : Oracle) (gid : String) :
-    ∀ (bs : List (List String)) (k : Nat), ∀ e ∈ (attachBatches o gid k bs).j, isIncreaseCall gid e.call = true := by
+    ∀ (bs : List (List String)) (k : Nat), ∀ e ∈ (attachBatches o gid k bs).j, isAttachPhaseCall gid e.call = true := by
   intro bs
   induction bs with
   | nil => intro k e he; simp [attachBatches] at he
@@ -309,13 +319,13 @@ theorem attachBatches_entries (o : Oracle) (gid : String) :
     split at he
     · simp only [List.mem_append, hj, List.mem_singleton] at he
       rcases he with he | he
-      · subst he; simp [isIncreaseCall]
+      · subst he; simp [isAttachPhaseCall]
       · exact ih _ e he
     · simp only [hj, List.mem_singleton] at he
-      subst he; simp [isIncreaseCall]
+      subst he; simp [isAttachPhaseCall]
 
-theorem attachInstances_entries (o : Oracle) (k : Nat) (cfg : AwsCfg) (g : PGroup) (ids : List String) :
-    ∀ e ∈ (attachInstances o k cfg g ids).j, isIncreaseCall g.id e.call = true := by
+theorem attachInstances_phase (o : Oracle) (k : Nat) (cfg : AwsCfg) (g : PGroup) (ids : List String) :
+    ∀ e ∈ (attachInstances o k cfg g ids).j, isAttachPhaseCall g.id e.call = true := by
   intro e he
   unfold attachInstances at he; dsimp only at he
   split at he
@@ -333,6 +343,57 @@ theorem attachInstances_entries (o : Oracle) (k : Nat) (cfg : AwsCfg) (g : PGrou
     rcases he with he | he
     · exact readyLoop_entries o g.id ids _ _ e he
     · exact terminateOrphans_entries o g.id _ _ _ e he
+
+theorem attachInstances_entries (o : Oracle) (k : Nat) (cfg : AwsCfg) (g : PGroup) (ids : List String) :
+    ∀ e ∈ (attachInstances o k cfg g ids).j, isIncreaseCall g.id e.call = true :=
+  fun e he => attachPhase_isIncrease (attachInstances_phase o k cfg g ids e he)
+
+/-- Calls of `IncreaseSize g d`, with the exact amounts: a `SetDesiredCapacity` asks for the cached
+    desired size plus `d`; a fleet request asks for `d` instances, all-or-nothing. -/
+def isIncreaseCallExact (gid : String) (base d : Int) (c : Call) : Bool :=
+  match c with
+  | .setDesired g v => g == gid && v == base + d
+  | .createFleet r => r.total == d && r.minTarget == d && r.fleetType == "instant"
+  | .describeAsgs _ => true
+  | c => isAttachPhaseCall gid c
+
+theorem attachPhase_isExact {gid : String} {base d : Int} {c : Call} (h : isAttachPhaseCall gid c = true) :
+    isIncreaseCallExact gid base d c = true := by
+  cases c <;> simp [isAttachPhaseCall, isIncreaseCallExact] at h ⊢ <;> exact h
+
+theorem oneShot_exact (o : Oracle) (k : Nat) (cfg : AwsCfg) (g : PGroup) (d : Int) :
+    ∀ e ∈ (oneShot o k cfg g d).j, isIncreaseCallExact g.id g.asg.desired d e.call = true := by
+  intro e he
+  unfold oneShot at he; dsimp only at he
+  split at he
+  · split at he
+    · simp [doCall_j] at he; subst he; rfl
+    · split at he
+      · split at he
+        · simp only [List.mem_append, doCall_j, List.mem_singleton] at he
+          rcases he with he | he <;> subst he <;> simp [isIncreaseCallExact, mkFleetReq]
+        · simp only [List.mem_append, doCall_j, List.mem_singleton] at he
+          rcases he with (he | he) | he
+          · subst he; rfl
+          · subst he; simp [isIncreaseCallExact, mkFleetReq]
+          · exact attachPhase_isExact (attachInstances_phase o _ cfg g _ e he)
+      · simp only [List.mem_append, doCall_j, List.mem_singleton] at he
+        rcases he with he | he <;> subst he <;> simp [isIncreaseCallExact, mkFleetReq]
+  · simp [doCall_j] at he; subst he; rfl
+
+theorem increaseSize_exact (o : Oracle) (k : Nat) (cfg : AwsCfg) (g : PGroup) (d : Int) :
+    ∀ e ∈ (increaseSize o k cfg g d).j, isIncreaseCallExact g.id g.asg.desired d e.call = true := by
+  intro e he
+  unfold increaseSize at he; dsimp only at he
+  split at he
+  · simp at he
+  · split at he
+    · simp at he
+    · split at he
+      · exact oneShot_exact o k cfg g d e he
+      · obtain ⟨b, hj, _⟩ := doPlain_j o k (.setDesired g.id (g.asg.desired + d))
+        simp only [hj, List.mem_singleton] at he
+        subst he; simp [isIncreaseCallExact]
 
 theorem oneShot_entries (o : Oracle) (k : Nat) (cfg : AwsCfg) (g : PGroup) (d : Int) :
     ∀ e ∈ (oneShot o k cfg g d).j, isIncreaseCall g.id e.call = true := by
